@@ -18,6 +18,16 @@ func newExpressionPostFixer() expressionPostFixer {
 	return &expressionPostFixerImpl{}
 }
 
+// arithmetic of equal precedence groups from the left: 10 - 3 - 2 is (10 - 3) - 2
+func groupsLeftToRight(onStack *operationType, incoming *operationType) bool {
+	return onStack.Precedence == incoming.Precedence && isArithmeticOpType(onStack) && isArithmeticOpType(incoming)
+}
+
+func isArithmeticOpType(opType *operationType) bool {
+	return opType == addOpType || opType == subtractOpType || opType == multiplyOpType ||
+		opType == divideOpType || opType == moduloOpType
+}
+
 func popOpToResult(opStack []*token, result []*Operation) ([]*token, []*Operation) {
 	var newOp *token
 	opStack, newOp = opStack[0:len(opStack)-1], opStack[len(opStack)-1]
@@ -116,7 +126,8 @@ func (p *expressionPostFixerImpl) ConvertToPostfix(infixTokens []*token) ([]*Ope
 			// pop off higher precedent operators onto the result
 			for len(opStack) > 0 &&
 				opStack[len(opStack)-1].TokenType == operationToken &&
-				opStack[len(opStack)-1].Operation.OperationType.Precedence > currentPrecedence {
+				(opStack[len(opStack)-1].Operation.OperationType.Precedence > currentPrecedence ||
+					groupsLeftToRight(opStack[len(opStack)-1].Operation.OperationType, currentToken.Operation.OperationType)) {
 				opStack, result = popOpToResult(opStack, result)
 			}
 			// add this operator to the opStack
